@@ -272,6 +272,29 @@ def g5(repo, res):
     base_names = {n for n, vs in binds.items() if any("base" in ast.unparse(v) for v in vs)}
     ok = any(c.func.value.id in base_names and any(isinstance(x, ast.Name) and x.id in ddef and x.id not in base_names
                                                     for a in c.args for x in ast.walk(a)) for c in fam)
+    if not ok:
+        # the same merge written entry by entry: `for k, v in family.items(): base[k] = v`
+        fb = {}
+        for n in ast.walk(fn):
+            if isinstance(n, ast.Assign) and len(n.targets) == 1 and isinstance(n.targets[0], ast.Name):
+                fb.setdefault(n.targets[0].id, []).append(n.value)
+            elif isinstance(n, (ast.For, ast.comprehension)):
+                for x in ast.walk(n.target):
+                    if isinstance(x, ast.Name):
+                        fb.setdefault(x.id, []).append(n.iter)
+        bnames, fnames = set(base_names), set()
+        for _ in range(4):
+            for nm, vs in fb.items():
+                for v in vs:
+                    if isinstance(v, ast.Name) and v.id in bnames:
+                        bnames.add(nm)
+                    if nm not in bnames and ("famil" in ast.unparse(v) or any(isinstance(x, ast.Name) and x.id in fnames for x in ast.walk(v))):
+                        fnames.add(nm)
+        for n in ast.walk(fn):
+            if isinstance(n, ast.Assign) and len(n.targets) == 1 and isinstance(n.targets[0], ast.Subscript) and isinstance(n.targets[0].value, ast.Name) \
+                    and n.targets[0].value.id in bnames and any(isinstance(x, ast.Name) and x.id in fnames for x in ast.walk(n.value)):
+                ok = True
+                fam = fam + [n]
     res.ob("G5:family defaults overwrite base defaults", ok, {"rule": "G5", "updates": [norm(c) for c in fam], "base_dicts": sorted(base_names)})
     if not ok:
         res.add(Finding("G5", sm.rel, "get_style", fam[0] if fam else fn, "family defaults must be merged over the base defaults (base.update(family))"))
